@@ -170,6 +170,70 @@ func (env *Env) evalBool(e Expr) (T, error) {
 	return v.Ts[0], nil
 }
 
+// evalConjuncts evaluates a boolean expression into its top-level conjuncts, unfolding
+// non-recursive predicates, so that each conjunct can be discharged as its own obligation.
+func (env *Env) evalConjuncts(e Expr) ([]T, error) {
+	switch x := e.(type) {
+	case *EBinary:
+		if x.Op == "&&" {
+			a, err := env.evalConjuncts(x.X)
+			if err != nil {
+				return nil, err
+			}
+			b, err := env.evalConjuncts(x.Y)
+			if err != nil {
+				return nil, err
+			}
+			return append(a, b...), nil
+		}
+		if x.Op == "==>" {
+			// a ==> (b && c)  splits into  a ==> b, a ==> c
+			a, err := env.evalBool(x.X)
+			if err != nil {
+				return nil, err
+			}
+			bs, err := env.evalConjuncts(x.Y)
+			if err != nil {
+				return nil, err
+			}
+			out := make([]T, len(bs))
+			for i, b := range bs {
+				out[i] = Imp(a, b)
+			}
+			return out, nil
+		}
+	case *ECall:
+		if id, ok := x.Fun.(*EIdent); ok && env.depth < 8 {
+			if pd := env.vc.E.lookupPred(env.pkg, id.Name); pd != nil && !pd.Uninterp && !pd.Rec && pd.Ret == "" && len(x.Args) == len(pd.Params) {
+				sub := env.clone()
+				sub.vars = map[string]Val{}
+				sub.fr = nil
+				sub.pkg = pd.Pkg
+				sub.depth = env.depth + 1
+				for i, a := range x.Args {
+					v, err := env.eval(a)
+					if err != nil {
+						return nil, err
+					}
+					pt, err := env.vc.E.resolveType(pd.Pkg, pd.Params[i].Type)
+					if err != nil {
+						return nil, err
+					}
+					v = env.coerce(v, pt)
+					v.Typ = pt
+					sub.vars[pd.Params[i].Name] = v
+				}
+				return sub.evalConjuncts(pd.Body)
+			}
+		}
+	}
+	g, err := env.evalBool(e)
+	if err != nil {
+		return nil, err
+	}
+	return []T{g}, nil
+}
+
 var boolT = types.Typ[types.Bool]
 var intT = types.Typ[types.Int]
 
@@ -737,7 +801,10 @@ func (env *Env) evalSel(x *ESel) (Val, error) {
 		ref := vc.materialize(v)
 		ft := sty.Field(idx).Type()
 		res := vc.loadAddr(env.st, &Addr{Kind: aField, Typ: ft, Ref: ref, Struct: pt.Elem(), Idx: idx})
-		// struct-typed fields: keep the address so that further selection/pointer use works
+		if vc.inQuant == 0 && vc.rootFrame != nil {
+			// references stored in the heap denote objects allocated before the state was reached
+			vc.rootFrame.assumeAlive(env.st, True, res)
+		}
 		return res, nil
 	}
 	if sty, ok := structOf(v.Typ); ok {
@@ -815,7 +882,7 @@ func (env *Env) evalIndex(x *EIndex) (Val, error) {
 	case *types.Slice:
 		i = env.coerce(i, intT)
 		idx := env.to64(i)
-		return vc.loadAddr(env.st, &Addr{Kind: aElem, Typ: t.Elem(), Base: v.Ts[0], Index: app("bvadd", v.Ts[1], idx)}), nil
+		return vc.loadAddr(env.st, &Addr{Kind: aElem, Typ: t.Elem(), Base: v.Ts[0], Index: bvAdd(v.Ts[1], idx)}), nil
 	case *types.Map:
 		i = env.coerce(i, t.Key())
 		var k T
@@ -1030,6 +1097,32 @@ func (env *Env) evalCall(x *ECall) (Val, error) {
 			return Val{}, err
 		}
 		return Val{Typ: boolT, Ts: []T{Eq(v.Ts[0], vc.E.TypeID(t))}}, nil
+	case "aload":
+		// aload(x.f): the interface value held by the sync/atomic.Value field f (modelled as a plain cell)
+		a, err := env.evalLoc(x.Args[0])
+		if err != nil {
+			return Val{}, err
+		}
+		ref := vc.materialize(Val{Addr: a})
+		v := vc.loadAddr(env.st, &Addr{Kind: aCell, Typ: emptyIface, Ref: ref})
+		return v, nil
+	case "as":
+		// as(iface, T): the value of dynamic type T held by an interface
+		if len(x.Args) != 2 {
+			return Val{}, fmt.Errorf("as(iface, T)")
+		}
+		v, err := env.eval(x.Args[0])
+		if err != nil {
+			return Val{}, err
+		}
+		t, err := vc.E.resolveType(env.pkg, x.Args[1].String())
+		if err != nil {
+			return Val{}, err
+		}
+		if len(v.Ts) != 2 {
+			return Val{}, fmt.Errorf("as: not an interface value")
+		}
+		return vc.unbox(v.Ts[1], t), nil
 	case "mem", "ins", "del", "card", "empty":
 		return env.fsetCall(id.Name, x.Args)
 	case "alive":
@@ -1414,38 +1507,22 @@ func (vc *VC) fsetTheory() {
 		return
 	}
 	vc.fsetDeclared = true
-	vc.decls = append(vc.decls, "(declare-sort "+SortFSet+" 0)")
-	vc.declSet[SortFSet] = "sort"
-	vc.declareFun("gv_fs_mem", []string{SortFSet, SortRef}, SortBool)
-	vc.declareFun("gv_fs_ins", []string{SortFSet, SortRef}, SortFSet)
-	vc.declareFun("gv_fs_del", []string{SortFSet, SortRef}, SortFSet)
+	// A finite set of references is an array Ref -> Bool; only its cardinality is axiomatised.
 	vc.declareFun("gv_fs_card", []string{SortFSet}, SortBV(64))
-	vc.declare("gv_fs_empty", SortFSet)
 	vc.declareFun("gv_fs_any", []string{SortFSet}, SortRef)
 	vc.declareFun("gv_fs_other", []string{SortFSet, SortRef}, SortRef)
-	vc.UsedLemmas["fset (finite-set axioms; Lean: lean/CountedSet.lean)"] = true
+	vc.UsedLemmas["finite-set cardinality axioms (trusted theory; statements in lean/CountedSet.lean)"] = true
+	S := SortFSet
 	ax := []string{
-		// membership of insert / delete
-		"(forall ((s gv_FSet) (x (_ BitVec 64)) (y (_ BitVec 64))) (! (= (gv_fs_mem (gv_fs_ins s x) y) (or (= x y) (gv_fs_mem s y))) :pattern ((gv_fs_mem (gv_fs_ins s x) y))))",
-		"(forall ((s gv_FSet) (x (_ BitVec 64)) (y (_ BitVec 64))) (! (= (gv_fs_mem (gv_fs_del s x) y) (and (not (= x y)) (gv_fs_mem s y))) :pattern ((gv_fs_mem (gv_fs_del s x) y))))",
-		"(forall ((y (_ BitVec 64))) (! (not (gv_fs_mem gv_fs_empty y)) :pattern ((gv_fs_mem gv_fs_empty y))))",
-		"(= (gv_fs_card gv_fs_empty) (_ bv0 64))",
-		// cardinality: bounded (a finite set of 64-bit references has fewer than 2^63 elements is an assumption of the model: A-CARD)
-		"(forall ((s gv_FSet)) (! (and (bvsge (gv_fs_card s) (_ bv0 64)) (bvslt (gv_fs_card s) (_ bv4611686018427387904 64))) :pattern ((gv_fs_card s))))",
-		"(forall ((s gv_FSet) (x (_ BitVec 64))) (! (= (gv_fs_card (gv_fs_ins s x)) (ite (gv_fs_mem s x) (gv_fs_card s) (bvadd (gv_fs_card s) (_ bv1 64)))) :pattern ((gv_fs_card (gv_fs_ins s x)))))",
-		"(forall ((s gv_FSet) (x (_ BitVec 64))) (! (= (gv_fs_card (gv_fs_del s x)) (ite (gv_fs_mem s x) (bvsub (gv_fs_card s) (_ bv1 64)) (gv_fs_card s))) :pattern ((gv_fs_card (gv_fs_del s x)))))",
-		// card = 0 iff empty; card >= 1 with a member; card = 1 with member x means only x; card >= 2 with member x means another member
-		"(forall ((s gv_FSet) (x (_ BitVec 64))) (! (=> (gv_fs_mem s x) (bvsge (gv_fs_card s) (_ bv1 64))) :pattern ((gv_fs_mem s x))))",
-		"(forall ((s gv_FSet) (x (_ BitVec 64)) (y (_ BitVec 64))) (! (=> (and (gv_fs_mem s x) (gv_fs_mem s y) (not (= x y))) (bvsge (gv_fs_card s) (_ bv2 64))) :pattern ((gv_fs_mem s x) (gv_fs_mem s y))))",
+		"(= (gv_fs_card ((as const " + S + ") false)) (_ bv0 64))",
+		"(forall ((s " + S + ")) (! (and (bvsge (gv_fs_card s) (_ bv0 64)) (bvslt (gv_fs_card s) (_ bv4611686018427387904 64))) :pattern ((gv_fs_card s))))",
+		"(forall ((s " + S + ") (x (_ BitVec 64))) (! (= (gv_fs_card (store s x true)) (ite (select s x) (gv_fs_card s) (bvadd (gv_fs_card s) (_ bv1 64)))) :pattern ((gv_fs_card (store s x true)))))",
+		"(forall ((s " + S + ") (x (_ BitVec 64))) (! (= (gv_fs_card (store s x false)) (ite (select s x) (bvsub (gv_fs_card s) (_ bv1 64)) (gv_fs_card s))) :pattern ((gv_fs_card (store s x false)))))",
+		"(forall ((s " + S + ") (x (_ BitVec 64))) (! (=> (select s x) (bvsge (gv_fs_card s) (_ bv1 64))) :pattern ((select s x) (gv_fs_card s))))",
+		"(forall ((s " + S + ") (x (_ BitVec 64)) (y (_ BitVec 64))) (! (=> (and (select s x) (select s y) (not (= x y))) (bvsge (gv_fs_card s) (_ bv2 64))) :pattern ((select s x) (select s y) (gv_fs_card s))))",
+		"(forall ((s " + S + ")) (! (=> (bvsge (gv_fs_card s) (_ bv1 64)) (select s (gv_fs_any s))) :pattern ((gv_fs_card s))))",
+		"(forall ((s " + S + ") (x (_ BitVec 64))) (! (=> (and (bvsge (gv_fs_card s) (_ bv2 64)) (select s x)) (and (select s (gv_fs_other s x)) (not (= (gv_fs_other s x) x)))) :pattern ((select s x) (gv_fs_card s))))",
 	}
-	ax = append(ax,
-		// witnesses: a non-empty set has a member; a set with two or more elements has a member other than any given x
-		"(forall ((s gv_FSet)) (! (=> (bvsge (gv_fs_card s) (_ bv1 64)) (gv_fs_mem s (gv_fs_any s))) :pattern ((gv_fs_card s))))",
-		"(forall ((s gv_FSet) (x (_ BitVec 64))) (! (=> (and (bvsge (gv_fs_card s) (_ bv2 64)) (gv_fs_mem s x)) (and (gv_fs_mem s (gv_fs_other s x)) (not (= (gv_fs_other s x) x)))) :pattern ((gv_fs_mem s x) (gv_fs_card s))))",
-		// a member of a singleton is its only member
-		"(forall ((s gv_FSet) (x (_ BitVec 64)) (y (_ BitVec 64))) (! (=> (and (= (gv_fs_card s) (_ bv1 64)) (gv_fs_mem s x) (gv_fs_mem s y)) (= x y)) :pattern ((gv_fs_mem s x) (gv_fs_mem s y))))",
-		"(forall ((s gv_FSet) (x (_ BitVec 64))) (! (=> (= (gv_fs_card s) (_ bv0 64)) (not (gv_fs_mem s x))) :pattern ((gv_fs_mem s x))))",
-	)
 	for _, a := range ax {
 		vc.facts = append(vc.facts, "(assert "+a+")")
 	}
@@ -1470,13 +1547,13 @@ func (env *Env) fsetCall(name string, args []Expr) (Val, error) {
 	}
 	switch name {
 	case "empty":
-		return Val{Typ: fsetType, Ts: []T{"gv_fs_empty"}}, nil
+		return Val{Typ: fsetType, Ts: []T{"((as const " + SortFSet + ") false)"}}, nil
 	case "mem":
-		return Val{Typ: boolT, Ts: []T{app("gv_fs_mem", argv[0].Ts[0], argv[1].Ts[0])}}, nil
+		return Val{Typ: boolT, Ts: []T{Sel(argv[0].Ts[0], argv[1].Ts[0])}}, nil
 	case "ins":
-		return Val{Typ: fsetType, Ts: []T{app("gv_fs_ins", argv[0].Ts[0], argv[1].Ts[0])}}, nil
+		return Val{Typ: fsetType, Ts: []T{Sto(argv[0].Ts[0], argv[1].Ts[0], True)}}, nil
 	case "del":
-		return Val{Typ: fsetType, Ts: []T{app("gv_fs_del", argv[0].Ts[0], argv[1].Ts[0])}}, nil
+		return Val{Typ: fsetType, Ts: []T{Sto(argv[0].Ts[0], argv[1].Ts[0], False)}}, nil
 	case "card":
 		return Val{Typ: intT, Ts: []T{app("gv_fs_card", argv[0].Ts[0])}}, nil
 	}
